@@ -492,7 +492,54 @@ def table_arms(prog, e, lo, hi, resolve):
 
 # ---------------------------------------------------------------- the rules
 
+
+
+def _structural_rules(ck):
+    """rules that need none of the bit-level machinery: decided first, so that a violation here is reported even when a later rule cannot
+    model a rewritten coder"""
+    prog = ck.prog
+
+    # ---- R6: nothing decoded earlier is served for a later value
+    lib.cache_coherence_rule(ck, "C20-R6", "Pistache::Http::Header::Authorization",
+                             "the credential accessors of the Authorization header decode the value the header holds now")
+
+    # ---- R7: a scan that walks backwards has a lower bound
+    ck.rule("C20-R7", "B loop bound (backward scans)",
+            "the coders walk their input forwards, where the end is marked (the size, or the terminator behind a std::string); a loop that "
+            "moves a position backwards (--i, i -= n, --it) tests that position against its lower bound in its own condition -- text made "
+            "of padding only would otherwise be read in front of its first character", 1)
+    nloops = 0
+    for f in [f_ for f_ in prog.funcs.values() if os.path.basename(f_.file) in ("base64.cc", "base64.h") and f_.blocks]:
+        for hdr, body in cfg.natural_loops(f):
+            nloops += 1
+            dec = set()
+            for b_ in body:
+                for e in f.blocks[b_].elems:
+                    if e["k"] == "incdec" and e.get("op") == "--" and (e.get("operand") or {}).get("v"):
+                        dec.add(e["operand"]["v"])
+                    elif e["k"] == "assign" and e.get("op") == "-=" and (e.get("lhs") or {}).get("v"):
+                        dec.add(e["lhs"]["v"])
+                    elif e["k"] == "call" and e.get("op") == "--" and ((e.get("recv") or {}).get("v") or ((e.get("args") or [{}])[0].get("v"))):
+                        dec.add((e.get("recv") or {}).get("v") or e["args"][0].get("v"))
+            for v in sorted(dec):
+                bounded = False
+                for b_ in body:
+                    t = f.blocks[b_].term or {}
+                    if t.get("cmp") and ((t.get("lhs") or {}).get("v") == v and (t.get("lhs") or {}).get("t", "").strip() == v or
+                                         (t.get("rhs") or {}).get("v") == v and (t.get("rhs") or {}).get("t", "").strip() == v):
+                        bounded = True
+                    for e in f.blocks[b_].elems:
+                        if e["k"] == "cmp" and ((e.get("lhs") or {}).get("t", "").strip() == v or (e.get("rhs") or {}).get("t", "").strip() == v):
+                            bounded = True
+                ck.ob("C20-R7", "%s/backward-scan:%s" % (f.base.replace("Pistache::", ""), v), bounded, "%s:%s" % (f.file, (f.blocks[hdr].term or {}).get("l")), f,
+                      "`%s` is compared with its bound in the loop" % v if bounded else
+                      "the loop at line %s moves `%s` backwards and never compares it with a lower bound: on input that is all padding it runs "
+                      "off the front of the buffer" % ((f.blocks[hdr].term or {}).get("l"), v))
+    ck.ob("C20-R7", "loops-in-the-coders", nloops >= 2, "", "", "%d loops examined; none walks backwards without a bound" % nloops, nontrivial=False)
+
+
 def run(ck):
+    _structural_rules(ck)
     prog = ck.prog
     ck.rule("C20-R1", "H table agreement on intervals (interval interpretation of two loop-free functions)",
             "Base64Encoder::EncodeByte maps 0..63 by the RFC 4648 alphabet table; Base64Decoder::DecodeCharacter is its inverse on the "
